@@ -111,6 +111,13 @@ CHECKS = {
             "instance reproduces its solo trace and recommendation; (c) the domain argument is deep-compared before/after.",
             "RNG-free partitions for (b); solo traces computed by the same code on fresh objects; a failure of (a) that does not reproduce is itself reported.",
             "exhaustive enumeration of interleavings of two instances (schedule exploration) and of seeds x reward scripts with cross-process differential execution"),
+    "C17": ("exploration", "3 C17",
+            "Every point of a finite lattice (cell centres and boundaries generated by the library's own deterministic partitions on each "
+            "objective's documented domain down to depth 13-16 in 1-D, 6-7 per axis in 2-D, plus corners, documented maximisers and their "
+            "float neighbours; DoubleSine parameter grid; perturbed variants over the normal-draw menu) is evaluated: f finite, f <= fmax "
+            "exactly, evaluation pure (bit-identical twice, no random draw), fmax attained at the documented maximiser, wrong dimension rejected.",
+            "The property quantifies over every real point; a finite lattice decides nothing off the lattice - hence level 'exploration', not model checking (DESIGN.md section 7).",
+            "exhaustive evaluation over a finite input lattice (E-lattice); no claim beyond the lattice"),
 }
 
 LATER = {
